@@ -127,9 +127,19 @@ fn reference_kinds(thorough: bool) -> Vec<Subject> {
     let filler_fb = ("Other", "fb", "FUNCTION_BLOCK Other VAR n : INT ; END_VAR n := 1 ; END_FUNCTION_BLOCK");
     let filler_ty = ("Unrelated", "type", "TYPE Unrelated : INT ( 0 .. 1 ) ; END_TYPE");
     let mut out = vec![];
+    // every row twice: references spelled as declared, and spelled in upper case (identifiers are case-insensitive)
+    let mut rows: Vec<(String, Vec<D>, (String, &'static str, String), bool)> = vec![];
     for (label, providers, consumer, faulty) in table {
+        rows.push((label.to_string(), providers.clone(), (consumer.0.to_string(), consumer.1, consumer.2.to_string()), faulty));
+        let names: Vec<&str> = providers.iter().map(|p| p.0).chain(["Low", "High", "G", "t"].into_iter()).collect();
+        let upper: String = consumer.2.split(' ').map(|w| if names.contains(&w) { w.to_uppercase() } else { w.to_string() }).collect::<Vec<_>>().join(" ");
+        if upper != consumer.2 {
+            rows.push((format!("{}/references-in-upper-case", label), providers, (consumer.0.to_string(), consumer.1, upper), faulty));
+        }
+    }
+    for (label, providers, consumer, faulty) in rows {
         let mut decls: Vec<Decl> = providers.iter().map(|(n, k, w)| d(n, k, w)).collect();
-        let mut c = d(consumer.0, consumer.1, consumer.2);
+        let mut c = d(&consumer.0, consumer.1, &consumer.2);
         c.faulty = faulty;
         decls.push(c);
         decls.push(d(filler_fb.0, filler_fb.1, filler_fb.2));
